@@ -2,14 +2,17 @@
 
 import random
 
-from harness import progs, progs_calls
+from harness import progs, progs_alias, progs_calls
 from harness.common import Check
 from harness.e1corpus import Item, describe, run_items
 
 BUDGET = {
-    "quick": {"arith": 16, "control": 16, "memory": 14, "state": 12, "calls": 8},
-    "thorough": {"arith": 400, "control": 400, "memory": 300, "state": 300, "calls": 250},
+    "quick": {"arith": 14, "control": 18, "memory": 14, "state": 12, "calls": 8, "alias": 6},
+    "thorough": {"arith": 400, "control": 400, "memory": 300, "state": 300, "calls": 250, "alias": 150},
 }
+
+
+FAMS = dict(progs.FAMILIES, calls=progs_calls.fam_calls, alias=progs_alias.fam_alias)
 
 
 def build_items(tier: str, seed: int, budget=None):
@@ -17,7 +20,7 @@ def build_items(tier: str, seed: int, budget=None):
     items = []
     for fam, n in (budget or BUDGET[tier]).items():
         for _ in range(n):
-            prog, inputs = (progs_calls.fam_calls if fam == "calls" else progs.FAMILIES[fam])(rnd)
+            prog, inputs = FAMS[fam](rnd)
             items.append(Item(prog, inputs))
     return items
 
